@@ -359,7 +359,7 @@ def emod_sweep_cases():
             [kid("setup", "channel width"), 1], [ek["lut"], 3]]
     fe = F_ID["emodulus"]
     cases = []
-    for med in (None, 3, 4):
+    for med in (None, 1, 3, 4):
         for tmp in (None, 2):
             for visc in (None, 3):
                 for vm in (None, 1):
@@ -371,9 +371,12 @@ def emod_sweep_cases():
                                      (ek["viscosity model"], vm)):
                             if v is not None:
                                 cfg0.append([k, v])
-                        muts = [[0, ek["medium"], 10 if med == 3 else 3],
+                        # medium 1 (CellCarrier): its viscosity depends on
+                        # the viscosity model (water's does not); 0.0 degC
+                        # only with water (herold-2017 MC-PBS domain)
+                        muts = [[0, ek["medium"], 10 if med in (1, 3) else 3],
                                 [0, ek["medium"], 20 if med == 4 else 4],
-                                [0, ek["temperature"], 0 if med != 1 else 5],
+                                [0, ek["temperature"], 0 if med == 3 else 5],
                                 [0, ek["temperature"], 7],
                                 [0, ek["viscosity"], 0],
                                 [0, ek["viscosity"], 5],
@@ -442,7 +445,8 @@ def gen_case(rng, thorough=False):
     if fam in ("emod", "mixed"):
         ek = {n: kid("calculation", "emodulus " + n) for n in (
             "lut", "medium", "temperature", "viscosity", "viscosity model")}
-        hot = [ek["viscosity"], ek["temperature"], ek["medium"]]
+        hot = [ek["viscosity"], ek["temperature"], ek["medium"],
+               ek["viscosity model"]]
         r = rng.random()
         if r < 0.45:
             # start from one complete scenario: drop the keys of the others
@@ -1176,6 +1180,7 @@ def run(run):
                      % (len(coincid), stale_pred))
     emodulus_table(run)
     uses_sensitivity(run)
+    plugin_reload_check(run)
 
 
 # --------------------------------------------------------------------------
@@ -1420,6 +1425,67 @@ def emodulus_table(run):
         if m != i:
             run.mismatch(dict(kind="emodulus-table", row=list(r[:6]),
                               variant=r[6]), m, i, what="emodulus table")
+
+
+# --------------------------------------------------------------------------
+# plugin feature removed and registered again with another method
+# --------------------------------------------------------------------------
+def plugin_reload_check(run):
+    """A long-lived dataset read a plugin feature; the plugin is removed and
+    a plugin with the same feature name but another method is registered:
+    the next read must equal a fresh dataset's. (Plugin (un)loading is at the
+    edge of the property's history alphabet; the probe is active once
+    known_findings.json lists C06-plugin-reregistered-stale, as finding or
+    as fixed.)"""
+    import numpy as np
+    import dclab
+    from dclab.rtdc_dataset.feat_anc_plugin import plugin_feature as pf
+    fid = "C06-plugin-reregistered-stale"
+    if fid not in [e["id"] for e in run.findings]:
+        run.notes.append("plugin reload probe inactive (%s not listed)" % fid)
+        return
+
+    def m1(ds):
+        return {"verif_reload": ds["deform"] * 2}
+
+    def m2(ds):
+        return {"verif_reload": ds["deform"] * 0 + 7}
+
+    def info(m):
+        return {"method": m, "description": "verif", "long description": "",
+                "feature names": ["verif_reload"],
+                "feature labels": ["verif reload"],
+                "features required": ["deform"], "config required": [],
+                "method check required": lambda x: True,
+                "scalar feature": [True], "version": "0.1.0"}
+    data = {"deform": innate_data("deform")}
+    ds = dclab.new_dataset(data)
+    p1 = pf.PlugInFeature("verif_reload", info(m1))
+    p2 = None
+    case = dict(kind="plugin-reload", feature="verif_reload")
+    try:
+        first = np.array(ds["verif_reload"])
+        pf.remove_plugin_feature(p1)
+        p1 = None
+        p2 = pf.PlugInFeature("verif_reload", info(m2))
+        again = np.array(ds["verif_reload"])
+        fresh = np.array(dclab.new_dataset(data)["verif_reload"])
+        run.record_case(case, True, sample=False)
+        run.count("plugin-reload")
+        if not same_value(again, fresh):
+            run.oracle_failure(
+                case, "after removing a plugin feature and registering the "
+                "same name with another method, ds[feat] still returns the "
+                "old method's values %s (fresh dataset: %s)" % (
+                    again[:3].tolist(), fresh[:3].tolist()), fid)
+        del first
+    finally:
+        for p in (p1, p2):
+            if p is not None:
+                try:
+                    pf.remove_plugin_feature(p)
+                except Exception:
+                    pass
 
 
 # --------------------------------------------------------------------------
